@@ -171,6 +171,13 @@ def main(tier, seed):
         real.append((b"u@" + d, "unlisted", None))
     for d in (b"pppppp", b"com", b"mailhost"):
         real.append((b"u@" + d, "nonfqdn", None))
+    # a single label is no FQDN whatever it is: a listed TLD of every class, in both cases, an A-label TLD
+    for cls, names in sorted(bycls.items()):
+        n0 = sorted(names, key=len)[0]
+        real.append((b"u@" + n0, "nonfqdn", None))
+        real.append((b"first.last@" + n0.upper(), "nonfqdn", None))
+    for n0 in [n for n, _, _ in mdl.rows if n.startswith(b"xn--")][:2]:
+        real.append((b"u@" + n0, "nonfqdn", None))
     for d in (b"[1.2.3.4]", b"[IPv6:2001:db8::1]", b"[IPv6:::ffff:1.2.3.4]", b"[127.0.0.1]", b"[127.255.255.254]", b"[IPv6:::1]",
               b"[IPv6:::ffff:127.0.0.1]", b"[10.0.0.1]", b"[192.168.1.1]", b"[169.254.1.1]", b"[224.0.0.1]", b"[255.255.255.255]",
               b"[IPv6:fe80::1]", b"[IPv6:ff02::1]", b"[IPv6:fc00::1]", b"[IPv6:2001:db8:0:0:0:0:0:1]", b"[192.0.2.1]", b"[100.64.0.1]"):
